@@ -12,6 +12,9 @@ What travels with a request (`Req`):
     (indices into the harness alphabets); only `path` is ever rewritten;
   * `groups` – the `routeGroupCtxKey` map: ONE map per request, created in `PrepareRequest`,
     shared by the primary chain, every subroute and the error chain;
+  * `replStatus` – the `http.error.status_code` placeholder in the request's replacer (ONE
+    replacer per request, shared by every copy of the request): `WithError` sets it for a
+    `HandlerError` and leaves it alone for any other error;
   * `ctxErr` – the `ErrorCtxKey` context value put there by `HTTPErrorConfig.WithError`
     (`some st`, `st = 0` meaning "an error that is not a `HandlerError`").
 
@@ -31,6 +34,7 @@ structure Req where
   hdr : Nat
   groups : List Nat := []
   ctxErr : Option Nat := none
+  replStatus : Option Nat := none
 deriving DecidableEq, Repr
 
 def Req.get (r : Req) : Field → Nat
@@ -39,16 +43,54 @@ def Req.get (r : Req) : Field → Nat
   | .path => r.path
   | .header => r.hdr
 
-/-- one probe-handler invocation: which handler, the path it saw, the context error it saw -/
+/-- one probe-handler invocation: which handler, the path it saw, the context error it saw, the
+    `{http.error.status_code}` placeholder it saw -/
 structure Ev where
   id : Nat
   path : Nat
   err : Option Nat
+  repl : Option Nat
 deriving DecidableEq, Repr
 
 abbrev Trace := List Ev
 
-def ev (id : Nat) (r : Req) : Ev := ⟨id, r.path, r.ctxErr⟩
+def ev (id : Nat) (r : Req) : Ev := ⟨id, r.path, r.ctxErr, r.replStatus⟩
+
+/-- `HTTPErrorConfig.WithError(r, err)`: the error goes into the context of a shallow copy of the
+    request; `http.error.status_code` is set in the shared replacer only `if handlerErr, ok :=
+    err.(HandlerError)` (status 0 = not a `HandlerError`). -/
+def withError (st : Nat) (r : Req) : Req :=
+  { r with ctxErr := some st, replStatus := if st = 0 then r.replStatus else some st }
+
+/-- where a real `error` / `static_response` handler takes its status from (`status_code`, a
+    `WeakString` expanded by the replacer and parsed with `strconv.Atoi`) -/
+inductive Src where
+  | empty            -- not configured
+  | lit (n : Nat)    -- a number
+  | errCode          -- "{http.error.status_code}"
+  | bad              -- text that is not a number
+deriving DecidableEq, Repr
+
+/-- `strconv.Atoi(repl.ReplaceAll(codeStr, ""))`; `none` = Atoi failed (an unset placeholder
+    expands to the empty string) -/
+def Src.resolve : Src → Req → Option Nat
+  | .empty, _ => none
+  | .lit n, _ => some n
+  | .errCode, r => r.replStatus
+  | .bad, _ => none
+
+/-- StaticError.ServeHTTP: default 500; a status that does not parse is a 500 as well -/
+def raiseStatus (src : Src) (r : Req) : Nat :=
+  match src with
+  | .empty => 500
+  | _ => (src.resolve r).getD 500
+
+/-- StaticResponse.ServeHTTP without `status_code`: 200, or "the recommended status code" of the
+    `HandlerError` in the request context -/
+def answerDefault (r : Req) : Nat :=
+  match r.ctxErr with
+  | some st => if st = 0 then 200 else st
+  | none => 200
 
 /-- request matchers. `atom f vals` is a real `host`/`path`/`method`/`header` matcher configured
     with exact values; `err kind st` is a matcher that reports an error (kind 0: `(false, err)`,
@@ -113,6 +155,8 @@ inductive Handler where
   | respond (id st : Nat)
   | rewrite (id p : Nat)
   | fail (id st : Nat)
+  | raise (src : Src)     -- the real `error` handler (no probe: leaves no trace event)
+  | answer (src : Src)    -- the real `static_response` handler (no probe)
   | sub (rs : List Route) (hasErrs : Bool) (errs : List Route)
 /-- `group = 0` is the empty group name -/
 inductive Route where
@@ -162,13 +206,21 @@ def runHandler : Handler → K → K
   | .respond id st, _ => fun r t => .done (t ++ [ev id r]) (some st)
   | .rewrite id p, k => fun r t => k { r with path := p } (t ++ [ev id r])
   | .fail id st, _ => fun r t => .err (t ++ [ev id r]) st r
+  | .raise src, _ => fun r t => .err t (raiseStatus src r) r
+  | .answer src, _ => fun r t =>
+    match src with
+    | .empty => .done t (some (answerDefault r))
+    | _ =>
+      match src.resolve r with
+      | some n => .done t (some n)
+      | none => .err t 500 r          -- `return Error(http.StatusInternalServerError, err)`
   | .sub rs hasErrs errs, k => fun r t =>
     -- Subroute.ServeHTTP: `sr.Routes.Compile(next)`; on error and `sr.Errors != nil`:
     -- `sr.Errors.WithError(r, err)`, `sr.Errors.Routes.Compile(next)` — no URI restore
     match runRoutes rs k r t with
     | .done t' s => .done t' s
     | .err t' st r' =>
-      if hasErrs then runRoutes errs k { r' with ctxErr := some st } t'
+      if hasErrs then runRoutes errs k (withError st r') t'
       else .err t' st r'
 /-- `RouteList.Compile(next)` -/
 def runRoutes : List Route → K → K
@@ -195,11 +247,11 @@ deriving DecidableEq, Repr
     context and run the error chain if `s.Errors != nil && len(s.Errors.Routes) > 0`.
     `hasErrs = false` ⇔ `s.Errors == nil`. The group map is NOT reset. -/
 def serve (routes : List Route) (hasErrs : Bool) (errs : List Route) (req : Req) : Result :=
-  match runRoutes routes emptyK { req with groups := [], ctxErr := none } [] with
+  match runRoutes routes emptyK { req with groups := [], ctxErr := none, replStatus := none } [] with
   | .done t s => ⟨t, s⟩
   | .err t st r' =>
     if hasErrs && !errs.isEmpty then
-      match runRoutes errs errorEmptyK { r' with path := req.path, ctxErr := some st } t with
+      match runRoutes errs errorEmptyK (withError st { r' with path := req.path }) t with
       | .done t2 s2 => ⟨t2, s2⟩
       | .err t2 _ _ => ⟨t2, some (writeStatus (some st))⟩
     else ⟨t, some (writeStatus (some st))⟩
